@@ -17,6 +17,7 @@ import (
 	"context"
 	"encoding/binary"
 	"encoding/hex"
+	"encoding/json"
 	"fmt"
 	"math/rand"
 	"os"
@@ -48,16 +49,34 @@ var (
 // one replica: a metadb directory plus the state machine object over it
 
 type world struct {
-	root string
-	seq  *int
-	dir  string
-	db   *metadb.DB
-	sm   multiraft.StateMachine
+	root  string
+	seq   *int
+	dir   string
+	db    *metadb.DB
+	sm    multiraft.StateMachine
+	empty []byte // exported metadata of an empty database
 }
 
 func newWorld(root string, seq *int) (*world, error) {
 	w := &world{root: root, seq: seq}
-	return w, w.fresh()
+	if err := w.newDir(); err != nil {
+		return nil, err
+	}
+	b, err := w.export()
+	if err != nil {
+		return nil, err
+	}
+	w.empty = b
+	return w, nil
+}
+
+func (w *world) newSM() error {
+	sm, err := fsm.NewStateMachineWithHashSlots(w.db, slotID, ownedHS)
+	if err != nil {
+		return err
+	}
+	w.sm = sm
+	return nil
 }
 
 func (w *world) open() error {
@@ -65,12 +84,12 @@ func (w *world) open() error {
 	if err != nil {
 		return err
 	}
-	sm, err := fsm.NewStateMachineWithHashSlots(db, slotID, ownedHS)
-	if err != nil {
+	w.db = db
+	if err := w.newSM(); err != nil {
 		db.Close()
+		w.db = nil
 		return err
 	}
-	w.db, w.sm = db, sm
 	return nil
 }
 
@@ -81,15 +100,18 @@ func (w *world) close() {
 	}
 }
 
-// reopen models a process restart: the database is closed and opened again and a new state
-// machine object (no in-memory state) is created over it.
-func (w *world) reopen() error {
+// restart models a process restart: a new state machine object (no in-memory state) over
+// the same database; with reopen the database itself is closed and opened again as well
+// (pebble's open costs ~80 ms, so only some restarts pay for it).
+func (w *world) restart(reopen bool) error {
+	if !reopen {
+		return w.newSM()
+	}
 	w.close()
 	return w.open()
 }
 
-// fresh gives the replica an empty database.
-func (w *world) fresh() error {
+func (w *world) newDir() error {
 	w.close()
 	if w.dir != "" {
 		_ = os.RemoveAll(w.dir)
@@ -97,6 +119,32 @@ func (w *world) fresh() error {
 	*w.seq++
 	w.dir = filepath.Join(w.root, fmt.Sprintf("w%d", *w.seq))
 	return w.open()
+}
+
+// fresh gives the replica an empty database.  Opening a new pebble directory per case is too
+// slow, so the hash slots and the slot's applied index are deleted through the exported
+// metadb API instead; the result is verified to be indistinguishable from a new database
+// (same exported bytes, applied index 0), otherwise a new directory is used.
+func (w *world) fresh() error {
+	if w.db != nil && w.empty != nil {
+		ok := true
+		for _, hs := range allHS {
+			if err := w.db.DeleteHashSlotData(bg, hs); err != nil {
+				ok = false
+			}
+		}
+		if err := w.db.DeleteSlotData(bg, slotID); err != nil {
+			ok = false
+		}
+		if ok && w.newSM() == nil {
+			b, err := w.export()
+			d, derr := w.durable()
+			if err == nil && derr == nil && d == 0 && bytes.Equal(b, w.empty) {
+				return nil
+			}
+		}
+	}
+	return w.newDir()
 }
 
 func (w *world) destroy() {
@@ -145,14 +193,18 @@ func (w *world) apply(log []cmdRec, from, to int) (res [][]byte, err error, pan 
 // current (valid), stale or conflicting
 
 type gen struct {
-	rng *rand.Rand
-	db  *metadb.DB
-	now int64
+	rng   *rand.Rand
+	db    *metadb.DB
+	now   int64
+	theme string // command family drawn far more often in this log ("" = none)
 }
 
 func (g *gen) tick() int64 { g.now += 1000; return g.now }
 func (g *gen) n(k int) int { return g.rng.Intn(k) }
 func (g *gen) hs() uint16 {
+	if g.theme == "hsmig" && g.n(10) < 7 {
+		return 3 // the hash slot the fence / outbox commands of this family address
+	}
 	switch r := g.n(100); {
 	case r < 60:
 		return 1
@@ -259,8 +311,11 @@ func runtimeGuard(m metadb.ChannelRuntimeMeta) metadb.ChannelMigrationRuntimeGua
 // migration emits the next plausible command of the channel-migration workflow for one
 // channel of one hash slot, with guards taken from the reference database (sometimes stale).
 func migration(g *gen) (uint16, []byte, string) {
-	hs := uint16(1 + g.n(2))
-	ch, ct := g.group(), int64(2)
+	// mostly one channel of one hash slot, so that consecutive commands meet
+	hs, ch, ct := uint16(1), "ga", int64(2)
+	if g.n(5) == 0 {
+		hs, ch = uint16(1+g.n(2)), g.group()
+	}
 	st := g.db.ForHashSlot(hs)
 	now := g.tick()
 	meta, merr := st.GetChannelRuntimeMeta(bg, ch, ct)
@@ -300,8 +355,8 @@ func migration(g *gen) (uint16, []byte, string) {
 		}
 		adv := metadb.ChannelMigrationTaskAdvance{Guard: tg, Status: metadb.ChannelMigrationStatusRunning, Phase: phases[g.n(len(phases))], UpdatedAtMS: now,
 			Attempt: uint32(g.n(3))}
-		switch g.n(6) {
-		case 0:
+		switch g.n(7) {
+		case 0, 4:
 			adv.Status, adv.CompletedAtMS = metadb.ChannelMigrationStatusCompleted, now
 		case 1:
 			adv.Status, adv.CompletedAtMS, adv.LastError = metadb.ChannelMigrationStatusFailed, now, "boom"
@@ -354,7 +409,11 @@ func gcTasks(g *gen) (uint16, []byte, string) {
 	if g.n(3) == 0 {
 		before = g.now - 3000
 	}
-	return uint16(1 + g.n(2)), fsm.EncodeGarbageCollectTerminalChannelMigrationTasksCommand(metadb.ChannelMigrationTaskGCRequest{BeforeMS: before, Limit: 1 + g.n(3)}), "GCMigrationTasks"
+	hs := uint16(1)
+	if g.n(5) == 0 {
+		hs = 2
+	}
+	return hs, fsm.EncodeGarbageCollectTerminalChannelMigrationTasksCommand(metadb.ChannelMigrationTaskGCRequest{BeforeMS: before, Limit: 1 + g.n(3)}), "GCMigrationTasks"
 }
 
 type weighted struct {
@@ -510,7 +569,7 @@ var generators = []weighted{
 		return g.hs(), fsm.EncodeUnbindPluginUserCommand(g.uid(), fmt.Sprintf("p%d", g.n(2))), "UnbindPluginUser"
 	}},
 	{14, migration},
-	{3, gcTasks},
+	{4, gcTasks},
 	// hash-slot migration maintenance commands as ordinary log entries of this slot
 	{2, func(g *gen) (uint16, []byte, string) {
 		hs := g.hs()
@@ -526,25 +585,38 @@ var generators = []weighted{
 	}},
 }
 
-var totalWeight = func() int {
-	t := 0
-	for _, w := range generators {
-		t += w.w
+// family of each generator above, by position
+var famOf = []string{"user", "user", "user", "user", "channel", "channel", "channel", "channel", "runtime", "runtime", "runtime", "runtime",
+	"subs", "subs", "member", "member", "member", "member", "member", "cmdmember", "cmdmember", "cmdmember", "latest", "latest",
+	"event", "event", "person", "person", "person", "plugin", "plugin", "migration", "migration", "hsmig", "hsmig", "hsmig", "hsmig"}
+
+var families = []string{"user", "channel", "runtime", "subs", "member", "cmdmember", "latest", "event", "person", "plugin", "migration", "migration", "migration", "hsmig", "hsmig"}
+
+func (g *gen) weight(i int) int {
+	if g.theme != "" && famOf[i] == g.theme {
+		return generators[i].w * 12
 	}
-	return t
-}()
+	return generators[i].w
+}
 
 func (g *gen) valid() cmdRec {
+	if len(famOf) != len(generators) {
+		panic("famOf out of date")
+	}
+	total := 0
+	for i := range generators {
+		total += g.weight(i)
+	}
 	for {
-		r := g.n(totalWeight)
-		for _, w := range generators {
-			if r < w.w {
+		r := g.n(total)
+		for i, w := range generators {
+			if r < g.weight(i) {
 				if hs, data, desc := w.fn(g); data != nil {
 					return cmdRec{HashSlot: hs, Data: data, Desc: desc}
 				}
 				break
 			}
-			r -= w.w
+			r -= g.weight(i)
 		}
 	}
 }
@@ -674,13 +746,50 @@ func (c *caseLog) describe() []any {
 }
 
 type harness struct {
-	t    *testing.T
-	env  kit.Env
-	rep  *kit.Report
-	rng  *rand.Rand
-	root string
-	seq  int
-	seen map[string]bool // violation signatures already reported
+	t     *testing.T
+	env   kit.Env
+	rep   *kit.Report
+	rng   *rand.Rand
+	root  string
+	seq   int
+	refW  *world // reference replica (one entry at a time)
+	repW  *world // replica under test
+	seen  map[string]bool // violation signatures already reported
+	cache map[string]*cachedLog
+}
+
+type cachedLog struct {
+	cl   *caseLog
+	uses int
+}
+
+func (h *harness) worlds() error {
+	var err error
+	if h.refW == nil {
+		if h.refW, err = newWorld(h.root, &h.seq); err != nil {
+			return err
+		}
+	}
+	if h.repW == nil {
+		if h.repW, err = newWorld(h.root, &h.seq); err != nil {
+			return err
+		}
+	}
+	return nil
+}
+
+// logFor returns a log for the kinds; a log is shared by at most three schedules.
+func (h *harness) logFor(kinds []string) *caseLog {
+	key := strings.Join(kinds, "")
+	if c := h.cache[key]; c != nil && c.uses < 3 {
+		c.uses++
+		return c.cl
+	}
+	cl, _ := h.buildLog(kinds)
+	if cl != nil {
+		h.cache[key] = &cachedLog{cl: cl, uses: 1}
+	}
+	return cl
 }
 
 func (h *harness) violate(kind, sig, detail string, replay any) {
@@ -695,13 +804,19 @@ func (h *harness) violate(kind, sig, detail string, replay any) {
 // buildLog draws real commands for the given kinds while applying them one at a time to a
 // reference replica.  The refusal part of the property is checked here directly.
 func (h *harness) buildLog(kinds []string) (*caseLog, bool) {
-	ref, err := newWorld(h.root, &h.seq)
-	if err != nil {
-		h.rep.Infra("open reference db: %v", err)
+	if err := h.worlds(); err != nil {
+		h.rep.Infra("open db: %v", err)
 		return nil, false
 	}
-	defer ref.destroy()
+	ref := h.refW
+	if err := ref.fresh(); err != nil {
+		h.rep.Infra("reset reference db: %v", err)
+		return nil, false
+	}
 	g := &gen{rng: h.rng, db: ref.db, now: baseMS}
+	if h.rng.Intn(10) < 7 {
+		g.theme = families[h.rng.Intn(len(families))]
+	}
 	cl := &caseLog{kinds: append([]string{""}, kinds...), cmds: make([]cmdRec, 1, len(kinds)+1)}
 	cur, err := ref.export()
 	if err != nil {
@@ -805,14 +920,78 @@ type replica struct {
 	p     int // log entries the runtime has fed (its applied index)
 	hw    int // highest entry ever applied to the current database
 	snaps map[int][]byte
+	rng   *rand.Rand
+	mmb   bool // the last ApplyBatch carried >= 2 channel-migration task commands of one channel
+	ahead string // set when the durable applied index was found above every entry ever fed
 }
 
+func isChannelMigrationCmd(data []byte) bool { return len(data) >= 2 && data[0] == 1 && data[1] >= 30 && data[1] <= 41 }
+
+// migrationChannel returns the channel a channel-migration task command addresses ("*" for the
+// garbage-collection command, which ranges over every channel of its hash slot).
+func migrationChannel(data []byte) string {
+	if !isChannelMigrationCmd(data) || len(data) < 7 {
+		return ""
+	}
+	if data[1] == 40 {
+		return "*"
+	}
+	var v struct {
+		ChannelID string
+		Guard     struct{ ChannelID string }
+		Task      struct{ ChannelID string }
+	}
+	if json.Unmarshal(data[7:], &v) != nil {
+		return ""
+	}
+	for _, c := range []string{v.ChannelID, v.Guard.ChannelID, v.Task.ChannelID} {
+		if c != "" {
+			return c
+		}
+	}
+	return ""
+}
+
+// multiMigrationBatch: do entries from..to hold two channel-migration task commands that meet
+// on one channel of one hash slot?
+func multiMigrationBatch(cmds []cmdRec, from, to int) bool {
+	type key struct {
+		hs uint16
+		ch string
+	}
+	seen := map[key]int{}
+	perHS := map[uint16]int{}
+	gc := map[uint16]bool{}
+	for i := from; i <= to; i++ {
+		ch := migrationChannel(cmds[i].Data)
+		if ch == "" {
+			continue
+		}
+		hs := cmds[i].HashSlot
+		perHS[hs]++
+		if ch == "*" {
+			gc[hs] = true
+		} else {
+			seen[key{hs, ch}]++
+		}
+	}
+	for k, n := range seen {
+		if n >= 2 || (gc[k.hs] && n >= 1) {
+			return true
+		}
+	}
+	return false
+}
+
+
 func (h *harness) newReplica(cl *caseLog) (*replica, error) {
-	w, err := newWorld(h.root, &h.seq)
-	if err != nil {
+	if err := h.worlds(); err != nil {
 		return nil, err
 	}
-	return &replica{w: w, cl: cl, snaps: map[int][]byte{}}, nil
+	if err := h.repW.fresh(); err != nil {
+		return nil, err
+	}
+	return &replica{w: h.repW, cl: cl, snaps: map[int][]byte{}, rng: h.rng}, nil
 }
 
 func (r *replica) refused(i int) bool { return r.cl.kinds[i] == "U" || r.cl.kinds[i] == "M" }
@@ -849,6 +1028,7 @@ func (r *replica) applyBatch(from, to int) stepOut {
 		return out
 	}
 	out.called = true
+	r.mmb = multiMigrationBatch(r.cl.cmds, f, to)
 	_, err, pan := r.w.apply(r.cl.cmds, f, to)
 	out.pan, out.applyE = pan, err
 	if pan != nil || err != nil {
@@ -864,12 +1044,17 @@ func (r *replica) applyBatch(from, to int) stepOut {
 
 // crashRestart reopens the database and resumes from the durable applied index.
 func (r *replica) crashRestart() (int, error) {
-	if err := r.w.reopen(); err != nil {
+	if err := r.w.restart(r.rng.Intn(4) == 0); err != nil {
 		return 0, err
 	}
 	d, err := r.w.durable()
 	if err != nil {
 		return 0, err
+	}
+	if int(d) > r.hw {
+		// the durable applied index claims entries that were never fed: the runtime would skip them
+		r.ahead = fmt.Sprintf("durable applied index %d after a restart, but only entries up to %d were ever applied to this database", d, r.hw)
+		d = uint64(r.hw)
 	}
 	r.p = int(d)
 	return int(d), nil
@@ -925,6 +1110,10 @@ func (h *harness) finish(r *replica, replay map[string]any) bool {
 				h.rep.Infra("restart: %v", err)
 				return false
 			}
+			if r.ahead != "" {
+				h.violate("durable", "durable-ahead", r.ahead, replay)
+				return false
+			}
 		}
 		if at, err, pan := r.catchUp(n); err != nil || pan != nil {
 			h.violate("replay", "replay-error", fmt.Sprintf("entry %d (%s), accepted by the one-at-a-time run, failed when fed again: err=%v panic=%v", at, r.cl.cmds[at].Desc, err, pan), replay)
@@ -937,16 +1126,41 @@ func (h *harness) finish(r *replica, replay map[string]any) bool {
 		}
 		if !bytes.Equal(b, r.cl.ref[n]) {
 			what := []string{"after completing the log", "after a final restart and replay from the durable applied index"}[round]
-			h.violate("final", sigFor(r.cl, 1, n, r.cl.ref[n], b), fmt.Sprintf("metadata %s differs from the one-at-a-time run: %s", what, diffSnap(r.cl.ref[n], b)), replay)
+			h.violate("final", r.sigFor(r.cl.ref[n], b), fmt.Sprintf("metadata %s differs from the one-at-a-time run: %s", what, diffSnap(r.cl.ref[n], b)), replay)
 			return false
 		}
 	}
 	return true
 }
 
-// sigFor names a divergence by the tables whose rows differ (stable across schedules).
-func sigFor(cl *caseLog, from, to int, want, got []byte) string {
-	return "diverge:" + strings.Join(diffTables(want, got), "+")
+// sigFor names a divergence by the tables whose rows differ (stable across schedules and hash
+// slots).
+//
+// Known finding "channel-migration-multi-command-batch" (known-findings.json): matched only when
+// the ApplyBatch that was just executed carried >= 2 channel-migration task commands of one
+// channel AND the difference is confined to channel-migration task rows / index entries
+// (table 9).  Reproduction on the unchanged tree (slot 7 owning hash slots {1,2,3}, empty metadb):
+//   task = ChannelMigrationTask{TaskID:"T1", Kind:ReplicaReplace, Status:Pending, Phase:Validate, ChannelID:"ga",
+//          ChannelType:2, SourceNode:2, TargetNode:4, DesiredLeader:1, CreatedAtMS:t, UpdatedAtMS:t}
+//   adv  = ChannelMigrationTaskAdvance{Guard:<task>, Status:Completed, Phase:ClearFence, UpdatedAtMS:t+1000, CompletedAtMS:t+1000}
+//   (1) ApplyBatch([Create(task), Advance(adv)]) leaves the channel's active-task index entry behind; Apply, Apply deletes it.
+//   (2) ApplyBatch([Create(task), Advance(adv), Create(T2 same channel)]) answers stale_meta for T2 and does not store it; one at a time stores T2.
+//   (3) Apply(Create), then ApplyBatch([Advance(adv), GarbageCollect{BeforeMS:t+5000}]) keeps T1; one at a time deletes row and terminal index.
+// Cause: commit-time operations of pkg/db/meta (stageUpsertChannelMigrationTask, ensureChannelMigrationActiveAvailable,
+// DeleteTerminalChannelMigrationTasksBefore) read the committed database instead of the batch overlay, and the stage-time
+// reservation Batch.migrationActive is never released.
+func (r *replica) sigFor(want, got []byte) string {
+	tabs := diffTables(want, got)
+	only9 := len(tabs) > 0
+	for _, t := range tabs {
+		if t != "row9" && t != "idx9" {
+			only9 = false
+		}
+	}
+	if r.mmb && only9 {
+		return "channel-migration-multi-command-batch"
+	}
+	return "diverge:" + strings.Join(tabs, "+")
 }
 
 // ---------------------------------------------------------------------------------------
@@ -1035,11 +1249,17 @@ func diffSnap(want, got []byte) string {
 func diffTables(want, got []byte) []string {
 	set := map[string]bool{}
 	for _, k := range diffKeys(want, got) {
-		p := k
-		if len(p) > 12 {
-			p = p[:12]
+		// key codec: domain(1) partition-kind(1) hash-slot(2) space(1) table-id(4) ...
+		label := "other"
+		if len(k) >= 9 {
+			sp := map[byte]string{0x10: "row", 0x11: "idx", 0x12: "sys"}[k[4]]
+			if sp == "sys" {
+				label = "sys"
+			} else if sp != "" {
+				label = fmt.Sprintf("%s%d", sp, binary.BigEndian.Uint32([]byte(k[5:9])))
+			}
 		}
-		set[hex.EncodeToString([]byte(p))] = true
+		set[label] = true
 	}
 	out := make([]string, 0, len(set))
 	for k := range set {
@@ -1063,9 +1283,8 @@ func kindsOf(ev map[string]any) []string {
 
 func (h *harness) replayBehaviour(bi int, b kit.Behaviour) {
 	kinds := kindsOf(b.Steps[0].Ev)
-	cl, ok := h.buildLog(kinds)
+	cl := h.logFor(kinds)
 	if cl == nil {
-		_ = ok
 		return
 	}
 	r, err := h.newReplica(cl)
@@ -1073,7 +1292,6 @@ func (h *harness) replayBehaviour(bi int, b kit.Behaviour) {
 		h.rep.Infra("open db: %v", err)
 		return
 	}
-	defer r.w.destroy()
 	replay := map[string]any{"behaviour": b, "log": cl.describe()}
 	specPos := 0
 	for si, st := range b.Steps[1:] {
@@ -1118,11 +1336,15 @@ func (h *harness) replayBehaviour(bi int, b kit.Behaviour) {
 					h.rep.Infra("restart: %v", err)
 					return
 				}
+				if r.ahead != "" {
+					h.violate("durable", "durable-ahead", fmt.Sprintf("step %d: %s", si+1, r.ahead), replay)
+					return
+				}
 				if at, err, pan := r.catchUp(d); err != nil || pan != nil {
 					h.violate("replay", "replay-error", fmt.Sprintf("step %d: after a restart entry %d (%s), accepted before, failed when replayed: err=%v panic=%v", si+1, at, cl.cmds[at].Desc, err, pan), replay)
 					return
 				}
-			} else if err := r.w.reopen(); err != nil {
+			} else if err := r.w.restart(h.rng.Intn(4) == 0); err != nil {
 				h.rep.Infra("restart: %v", err)
 				return
 			}
@@ -1150,7 +1372,7 @@ func (h *harness) replayBehaviour(bi int, b kit.Behaviour) {
 			if obs < 0 {
 				where = "equals the one-at-a-time metadata at no log position"
 			}
-			h.violate("state", sigFor(cl, 1, wantPos, cl.ref[wantPos], bts), fmt.Sprintf("step %d %s: metadata %s, expected after %d entries: %s", si+1, kit.JSON(kit.CloneEv(st.Ev)), where, wantPos,
+			h.violate("state", r.sigFor(cl.ref[wantPos], bts), fmt.Sprintf("step %d %s: metadata %s, expected after %d entries: %s", si+1, kit.JSON(kit.CloneEv(st.Ev)), where, wantPos,
 				diffSnap(cl.ref[wantPos], bts)), replay)
 			return
 		}
@@ -1199,17 +1421,24 @@ func (h *harness) drive(rec *kit.Recorder) {
 		h.rep.Infra("open db: %v", err)
 		return
 	}
-	defer r.w.destroy()
-	rec.Begin(map[string]any{"cfg": map[string]any{"kinds": kinds}}, map[string]any{"pos": 0})
+	// The steps are buffered: a trace is handed to TLC only if the driver itself saw no metadata
+	// divergence (a divergence is reported here, with a signature, so that known findings can be
+	// told from new ones; the runner's trace stage cannot do that).
+	var buf []kit.Step
 	emit := func(ev map[string]any, gotErr bool) bool {
-		obs, _, err := r.observe(r.p)
+		obs, bts, err := r.observe(r.p)
 		if err != nil {
 			h.rep.Infra("export: %v", err)
 			return false
 		}
 		ev["res"] = map[string]any{"err": gotErr}
-		rec.Step(ev, map[string]any{"pos": obs})
+		buf = append(buf, kit.Step{Ev: ev, St: map[string]any{"pos": obs}})
 		h.rep.Cover(kit.Str(ev, "a"))
+		if obs != r.p {
+			h.violate("state", r.sigFor(cl.ref[r.p], bts), fmt.Sprintf("driver step %d %s: metadata differs from the one-at-a-time run after %d entries: %s", len(buf), kit.JSON(ev), r.p,
+				diffSnap(cl.ref[r.p], bts)), map[string]any{"log": cl.describe(), "steps": buf})
+			return false
+		}
 		return true
 	}
 	snapIdx := []int{}
@@ -1241,11 +1470,15 @@ func (h *harness) drive(rec *kit.Recorder) {
 				h.rep.Infra("restart: %v", err)
 				return
 			}
+			if r.ahead != "" {
+				h.violate("durable", "durable-ahead", r.ahead, map[string]any{"log": cl.describe(), "steps": buf})
+				return
+			}
 			if !emit(kit.Ev("Restart", "d", d, "mode", "crash"), false) {
 				return
 			}
 		case dice < 84:
-			if err := r.w.reopen(); err != nil {
+			if err := r.w.restart(h.rng.Intn(4) == 0); err != nil {
 				h.rep.Infra("restart: %v", err)
 				return
 			}
@@ -1281,7 +1514,13 @@ func (h *harness) drive(rec *kit.Recorder) {
 			}
 		}
 	}
-	h.finish(r, map[string]any{"log": cl.describe(), "driver": true})
+	if !h.finish(r, map[string]any{"log": cl.describe(), "steps": buf}) {
+		return
+	}
+	rec.Begin(map[string]any{"cfg": map[string]any{"kinds": kinds}}, map[string]any{"pos": 0})
+	for _, st := range buf {
+		rec.Step(st.Ev, st.St)
+	}
 }
 
 // ---------------------------------------------------------------------------------------
@@ -1299,7 +1538,21 @@ func TestVerifSlotFSM(t *testing.T) {
 	if err != nil {
 		t.Fatal(err)
 	}
-	h := &harness{t: t, env: env, rep: rep, rng: env.Rand(), root: t.TempDir(), seen: map[string]bool{}}
+	// tmpfs when there is one (the subject is the logic, not fsync); the directory is removed at the end
+	root, rerr := os.MkdirTemp("/dev/shm", "verif-slotfsm-")
+	if rerr != nil {
+		root = t.TempDir()
+	}
+	defer os.RemoveAll(root)
+	h := &harness{t: t, env: env, rep: rep, rng: env.Rand(), root: root, seen: map[string]bool{}, cache: map[string]*cachedLog{}}
+	defer func() {
+		if h.refW != nil {
+			h.refW.destroy()
+		}
+		if h.repW != nil {
+			h.repW.destroy()
+		}
+	}()
 
 	behs, err := kit.LoadBehaviours(env.BehFile)
 	if err != nil {
